@@ -63,6 +63,35 @@ def same_lenient(v, w):
     return same(v, w)
 
 
+def text_twins(v, limit=40):
+    """values that differ from v only by replacing one str (at any depth, keys excluded) with a DIFFERENT str a normalising
+    comparison would identify with it: NFC / NFD / NFKC / NFKD forms, case variants, surrounding blanks, an invisible
+    character appended"""
+    import copy
+    import unicodedata
+    out = []
+
+    def variants(s):
+        vs = [unicodedata.normalize(f, s) for f in ("NFC", "NFD", "NFKC", "NFKD")] + [s.lower(), s.upper(), s.casefold(), s.strip(), s + " ",
+                                                                                    " " + s, s + "\u200b", s + "\n", s.replace("\r\n", "\n")]
+        return [x for x in dict.fromkeys(vs) if x != s]
+
+    def rec(x, rebuild):
+        if len(out) >= limit:
+            return
+        if isinstance(x, str):
+            for y in variants(x):
+                out.append(rebuild(y))
+        elif isinstance(x, list):
+            for i, m in enumerate(x[:6]):
+                rec(m, lambda y, i=i, x=x: rebuild(x[:i] + [y] + x[i + 1:]))
+        elif isinstance(x, dict):
+            for k, m in list(x.items())[:6]:
+                rec(m, lambda y, k=k, x=x: rebuild({**x, k: y}))
+    rec(v, lambda y: y)
+    return out[:limit]
+
+
 def run(ctx):
     from .. import extract_substitutor
     ok, msg = extract_substitutor.run()
@@ -87,7 +116,7 @@ def run(ctx):
     vals += longs
     # every edge scalar alone and nested
     from ..substcorr import edge_scalars
-    for a in edge_scalars():
+    for a in edge_scalars() + ["caf\u00e9", "cafe\u0301", "\u00c5", "\u212b", "\ufb01", "Stra\u00dfe", "ABC", "abc ", "a\r\nb"]:
         vals += [a, [a], {"k": a}, [1, [a, {"x": a}]]]
     # values in which the very same container object occurs at several positions (non-cyclic sharing)
     for _ in range(ctx.n(40, 300)):
@@ -134,7 +163,7 @@ def run(ctx):
                     c[k] = tw
                     twins.append(c)
         ps = gen_value.perturb(v, ctx.rnd, zoo_n=2)
-        for w in twins + ctx.rnd.sample(ps, min(len(ps), ctx.n(25, 80))):
+        for w in twins + text_twins(v) + ctx.rnd.sample(ps, min(len(ps), ctx.n(25, 80))):
             ctx.count("probes")
             try:
                 acc = not validate(s, w).has_errors()
